@@ -395,6 +395,9 @@ pub fn scope(name: &str) -> Scope {
             false,
             &['a', 'b', 'c'],
         ),
+        // a back-reference inside a group body beside possibly-empty terms, under every
+        // quantifier (the static analyses of such a body: can it be empty, how long is it)
+        "BRN" => Scope::new("BRN", &["(a)", "(a?)", "\\1", "b", "b?", "(?:\\1b?)", "(?:b?\\1)", "(?:\\1|b)"], &["?", "*", "+", "{2}"], false, &['a', 'b']),
         "BR3" => scope("BR3B").wrapped("BR3", "(x?)(y?)", "", &['a', 'b', 'c']),
         // alternatives that end at the same position several times before one that ends elsewhere
         "DUP" => Scope::new(
